@@ -69,6 +69,9 @@ def kernel_teardown(ctx, esc, rule):
     # another length, taken from a peer's proposal, makes ctypes raise TypeError - at installation and again at every removal attempt)
     from .c05 import ah_esp_spi_width
     ah_esp_spi_width(ctx, rule)
+    # ... and the teardown of an IKE_SA reaches every CHILD_SA it tracks
+    if rule != 'P2':
+        teardown_visits_all(ctx, rule)
 
 
 def run(ctx):
@@ -268,6 +271,23 @@ def run(ctx):
     ctx.functions.add(dcs.qual)
 
     # ---------------------------------------------------------------- P5b: teardown visits every CHILD_SA
+    teardown_visits_all(ctx, 'P5')
+
+    # ---------------------------------------------------------------- P6
+    ctrl_init = ctx.func('ikesacontroller.IkeSaController.__init__')
+    close = ctx.func('ikesacontroller.IkeSaController.close')
+    for fi in (ctrl_init, close):
+        g = esc.add_exception_edges(fi)
+        fl = kernel_calls(ctx, fi, g, 'flush_sas')
+        ctx.check(bool(fl) and all(g.exit.id not in g.reach([g.entry], blocked_nodes=[n for n, _ in fl], follow_exc=False)
+                                   for _ in [0]), 'P6', '%s flushes the SAD on every path' % fi.qual.split('.', 1)[1],
+                  key=('P6', fi.qual, 'flush_sas'), site=ctx.site(fi, fi.node))
+
+
+def teardown_visits_all(ctx, rule):
+    """a loop over the tracked list itself (not a copy) must not add or remove elements of that list - directly or through a method
+    of the same object - or every second CHILD_SA is skipped and its kernel SAs stay behind when the IKE_SA is torn down"""
+    prog, res = ctx.prog, ctx.res
     # a loop over the tracked list itself (not a copy) must not add or remove elements of that list - directly or through a
     # method of the same object - or every second CHILD_SA is skipped and its kernel SAs stay behind
     MUT = ('remove', 'pop', 'clear', 'append', 'insert', 'extend')
@@ -321,21 +341,12 @@ def run(ctx):
                         r = res.resolve_call(y, f, count=False)
                         if any(t2.qual in mutators for t2 in r.targets):
                             bad = y
-            ctx.check(bad is None, 'P5', '%s: the loop over `%s` does not change that list while walking it' % (f.name, src(lp.iter)),
-                      key=('P5', f.qual, 'mutates-while-iterating', src(lp.iter)), site=ctx.site(f, bad if bad is not None else lp),
+            ctx.check(bad is None, rule, '%s: the loop over `%s` does not change that list while walking it' % (f.name, src(lp.iter)),
+                      key=(rule, f.qual, 'mutates-while-iterating', src(lp.iter)), site=ctx.site(f, bad if bad is not None else lp),
                       detail={'mutating call': src(bad)[:80] if bad is not None else None})
-    ctx.stats['P5 loops over the tracked list itself'] = nloops
-    ctx.floor('P5 places that walk the CHILD_SAs of an IKE_SA', nsites, 3)
+    ctx.stats['%s loops over the tracked list itself' % rule] = nloops
+    ctx.floor('%s places that walk the CHILD_SAs of an IKE_SA' % rule, nsites, 3)
 
-    # ---------------------------------------------------------------- P6
-    ctrl_init = ctx.func('ikesacontroller.IkeSaController.__init__')
-    close = ctx.func('ikesacontroller.IkeSaController.close')
-    for fi in (ctrl_init, close):
-        g = esc.add_exception_edges(fi)
-        fl = kernel_calls(ctx, fi, g, 'flush_sas')
-        ctx.check(bool(fl) and all(g.exit.id not in g.reach([g.entry], blocked_nodes=[n for n, _ in fl], follow_exc=False)
-                                   for _ in [0]), 'P6', '%s flushes the SAD on every path' % fi.qual.split('.', 1)[1],
-                  key=('P6', fi.qual, 'flush_sas'), site=ctx.site(fi, fi.node))
 
 
 def handover_rule(ctx, esc, rule):
